@@ -117,6 +117,59 @@ static void* rw_hammer_writer(void* a) {
   return NULL;
 }
 
+// crowd trials: the lock already has P read holders (taken before the trial, released after it; P just below a power of two from
+// 2^15 to 2^20) and R more readers pile in and stay inside together, so the holder count crosses that power of two. Only the try
+// variant is used for writing: with readers inside it must fail every time, however many they are.
+static _Atomic int crowd_inside, crowd_readers_left;
+static int crowd_R;
+static long crowd_P;
+static void* rw_crowd_reader(void* a) {
+  fb_slot_t* s = (fb_slot_t*)a;
+  int i;
+  for (i = 0; i < 2; ++i) {
+    if (vp_rand(&s->rng) & 1) {
+      FB_BLOCKING(s, "C07 fiber_rwlock_rdlock", fiber_rwlock_rdlock(&rw));
+    } else {
+      atomic_store(&s->where, "C07 fiber_rwlock_tryrdlock (readers only: must succeed eventually)");
+      while (fiber_rwlock_tryrdlock(&rw) != FIBER_SUCCESS) {
+        vp_add(c_tryrd_fail, 1);
+        fiber_yield();
+      }
+      atomic_store(&s->where, (const char*)0);
+    }
+    atomic_fetch_add(&crowd_inside, 1);
+    int spins = 0;
+    // stay inside until (almost) everybody is inside too
+    while (atomic_load(&crowd_inside) < crowd_R - 2 && ++spins < 150) fiber_yield();
+    vp_max(c_maxreaders, crowd_P + atomic_load(&crowd_inside));
+    fiber_yield();
+    atomic_fetch_sub(&crowd_inside, 1);
+    fiber_rwlock_rdunlock(&rw);
+    vp_add(c_rd, 1);
+    spins = 0;
+    while (atomic_load(&crowd_inside) > 2 && ++spins < 150) fiber_yield();
+  }
+  atomic_fetch_sub(&crowd_readers_left, 1);
+  return NULL;
+}
+static void* rw_crowd_trywriter(void* a) {
+  fb_slot_t* s = (fb_slot_t*)a;
+  while (atomic_load(&crowd_readers_left) > 0) {
+    const uint64_t sw = vp_self_switches();
+    const int ok = fiber_rwlock_trywrlock(&rw);
+    if (vp_self_switches() != sw) vp_violation("C07", "rwlock:try-blocked", "trial %d (crowd): fiber %d was context-switched inside trywrlock", trial, s->id);
+    if (ok == FIBER_SUCCESS) {
+      vp_violation("C07", "rwlock:writer-with-readers", "trial %d (crowd): trywrlock succeeded while %ld earlier read holders plus %d of %d crowd readers hold the lock", trial, crowd_P,
+                   atomic_load(&crowd_inside), crowd_R);
+      break;
+    }
+    vp_add(c_trywr_fail, 1);
+    fiber_yield();
+    vp_progress();
+  }
+  return NULL;
+}
+
 void* sy_rwlock_root(void* x) {
   (void)x;
   const int trials = (int)vp_param("trials", 30);
@@ -145,7 +198,18 @@ void* sy_rwlock_root(void* x) {
     fb_slot_t* sl[256];
     int i;
     int nf = F;
-    if (trial % 3 == 2) {
+    const int crowd = (trial % 5) == 4;
+    if (crowd) {
+      crowd_R = 30 + (int)(vp_rand(&rng) % 70);
+      crowd_P = (1L << (15 + (int)(vp_rand(&rng) % 6))) - 20;
+      rw.state.state.reader_count = (unsigned)crowd_P;  // P read holds taken before the trial
+      atomic_store(&crowd_inside, 0);
+      atomic_store(&crowd_readers_left, crowd_R);
+      nf = 0;
+      for (i = 0; i < crowd_R; ++i) sl[nf++] = fb_spawn(rw_crowd_reader, NULL);
+      for (i = 0; i < 3; ++i) sl[nf++] = fb_spawn(rw_crowd_trywriter, NULL);
+      vp_count("rw_crowd_trials", 1);
+    } else if (trial % 3 == 2) {
       const int R = 4 + (int)(vp_rand(&rng) % 40), W = 1 + (int)(vp_rand(&rng) % 8);
       nf = 0;
       for (i = 0; i < R; ++i) sl[nf++] = fb_spawn(rw_hammer_reader, NULL);
@@ -156,6 +220,12 @@ void* sy_rwlock_root(void* x) {
     }
     fb_join_all(sl, nf);
     fiber_manager_all_stats(&st1);
+    if (crowd) {
+      if (rw.state.state.reader_count != (unsigned)crowd_P || rw.state.state.write_locked || rw.state.state.waiting_readers || rw.state.state.waiting_writers)
+        vp_violation("C07", "rwlock:state-nonzero-at-end", "trial %d (crowd): all crowd readers left but state is write_locked=%u readers=%u (expected the %ld earlier holders) waiting_readers=%u waiting_writers=%u",
+                     trial, rw.state.state.write_locked, rw.state.state.reader_count, crowd_P, rw.state.state.waiting_readers, rw.state.state.waiting_writers);
+      rw.state.blob = 0;  // the earlier holders release
+    }
     if (rw.state.blob != 0)
       vp_violation("C07", "rwlock:state-nonzero-at-end", "trial %d: nobody holds or waits but state is write_locked=%u readers=%u waiting_readers=%u waiting_writers=%u",
                    trial, rw.state.state.write_locked, rw.state.state.reader_count, rw.state.state.waiting_readers, rw.state.state.waiting_writers);
